@@ -15,6 +15,10 @@ class Unsupported(Exception):
     """The encoder cannot express what the code does here.  Never reported as success."""
 
 
+class StepLimit(Unsupported):
+    """The per-path step budget was exhausted (a non-termination candidate; decided by native replay)."""
+
+
 def split_top(s, sep=','):
     """Split at top-level separators, respecting brackets, string and char literals."""
     out, depth, cur = [], 0, []
